@@ -549,7 +549,7 @@ def plan_c16(tier, seed):
     # "valid releases in any order never trigger a report": valid histories with the recording handlers, in every configuration
     cfgs = ["rwd", "dbg", "chk"] if q else ["rel", "rwd", "dbg", "dbg16", "chk"]
     m = _scale(tier, 30, 500)
-    jobs += pool_jobs(cfgs, ["walk", "corner", "phased"], m, 250, _scale(tier, 30, 100)) + coll_jobs(cfgs, ["walk", "phased"], m, 250, _scale(tier, 30, 100)) \
+    jobs += pool_jobs(cfgs, ["walk", "corner", "phased"], m, 250, _scale(tier, 30, 100)) + coll_jobs(cfgs, ["walk", "phased", "corner"], m, 250, _scale(tier, 30, 100)) \
         + stack_jobs(cfgs, ["walk"], m, 250, _scale(tier, 30, 100), kinds=STACK_KINDS)
     return dict(jobs=jobs, level="fault_enumeration",
                 rule="(a) one child process per bad call: a seeded valid prefix on a real allocator, then exactly one invalid release of a class the "
